@@ -363,6 +363,12 @@ def tryfail_family(tier):
                 if len(ds) <= 3 and max(ds) > 1:
                     p = fp.build(mac, ds, flavour=fl, rich=True, wrap=True)
                     progs.append(fp.to_prog("%s/%s/%s/w" % (mac, fl, fp.pname(ds)), p, [[0]], sub=fp.fail_slots(ds)))
+                # every later step STARTS with a deferred error-side operator (`~!>`, `~<=`, `~<|`): a failure of the previous step is
+                # still noticed at the end of that step, before the error-side operator of the next one could touch it
+                if fl == "Res" and "async" not in mac and len(ds) <= 3 and max(ds) > 1 and (tier != "quick" or mac == "try_join" or len(ds) == 2):
+                    for es in ("!>", "<=", "<|"):
+                        p = fp.build(mac, ds, flavour="Res", estart=es)
+                        progs.append(fp.to_prog("%s/Res/%s/estart%s" % (mac, fp.pname(ds), {"!>": "maperr", "<=": "orelse", "<|": "or"}[es]), p, [[0]], sub=fp.fail_slots(ds)))
                 # Option branches that become None through operators which are also Option methods (filter, zip, flatten)
                 if fl == "Opt" and "async" not in mac and len(ds) <= 3 and max(ds) > 1 and (tier != "quick" or mac == "try_join" or len(ds) == 2):
                     for fo in ("filter", "zip", "flatten"):
@@ -665,6 +671,7 @@ def c15(tier, rep):
     else:
         runs = [(["c15", "std", 6, "join,try_join"], "21 symbols, length<=6, join/try_join"), (["c15", "full", 4, ALL8], "32 symbols, length<=4, 8 configs"), (["c15", "opts", 8, "join,try_join_async"], "4 options + x |> , then, length<=8")]
     runs.append((["c15", "wrap", 9 if tier == "quick" else 10, "join,try_join_async"], "wrapper balance: {x, |>, ~, >>>, <<<, comma}, length<=%d, join/try_join_async" % (9 if tier == "quick" else 10)))
+    runs.append((["c15", "sizes", ALL8], "1..40 branches / 1..40 steps (plain, captures, let names, handler) x 8 configs: valid expansion; 13 kinds of punctuation that cannot start an operand directly after every operand-taking operator (plain, ~, inside a wrapper) x 6 followers x 3 contexts x 8 configs: rejected"))
     runs.append((["c15", "lets", ALL8], "depth profiles n<=3,d<=3 x every assignment of {none, let, let mut, let ref, let r#keyword, let mut r#keyword} to the branches x handler x 8 configs"))
     runs.append((["c15", "mid", ALL8], "every operator (plain, ~, wrapper opener, <<<) in front of each separating comma of ^@ / ?^@ / typed <-> x 4 continuations x 8 configs: rejected"))
     classes = {}
@@ -1118,7 +1125,7 @@ def c10(tier, rep):
 def c07(tier, rep):
     from . import e1, e3a, e3t, fam_agree as fa, fam_async, fam_profiles as fp, fam_threads
 
-    progs = fa.pair_programs(tier) + fa.send_not_sync_programs() + fa.send_future_programs()
+    progs = fa.pair_programs(tier) + fa.send_not_sync_programs() + fa.send_future_programs() + fa.no_runtime_programs()
     fr = e2.run_family("c07pairs", progs, extra_header=fp.HEADER)
     judge_family(rep, fr)
     cp = fa.chain_pair_programs()
@@ -1166,7 +1173,7 @@ def c07(tier, rep):
                     rep.violate("%s | value set" % pid, "the set of values %s can return over all wake-up orders and failure subsets differs from the one of try_join_async! (%d vs %d distinct (row, value) pairs) — e.g. fail-fast behaviour or which failing branch wins" % (pid, d["nvalues"], o["nvalues"]), {"spawn": d.get("sample"), "plain": o.get("sample")})
     rep.set("plain_vs_spawn_value_sets_compared", vs_n)
     rep.set("disagreements_checked", fr.rows + fr2.rows + npairs + cmp_n)
-    rep.set("rule", "(a') Send parity: the future of each task-spawning macro over Send + 'static branches passes a `T: Send` bound and is driven on another OS thread, like the plain macro's; (a) the SAME generated program (depth profiles plain / capture-rich / handler+let with every failure subset; every typed chain of length <= 2 as first branch) instantiated under both names of each of the 12 pairs {plain, spawn variant, alias}: results and per-branch traces compared directly, real macro against real macro; (b) real expansion text (rustc -Zunpretty=expanded) of alias!{P} == long!{P} for P over the 40-input feature corpus x 4 alias pairs, and join_impl called as a library (E1) == the real proc-macro; (c) under the thread scheduler / deterministic executor the outcome set explored for an alias equals the one of its long name and every outcome equals the plain macro's reference")
+    rep.set("rule", "(a'') single-branch programs of the task-spawning macros driven by a plain executor outside any tokio runtime agree with the plain macro (nothing is spawned, so no runtime is asked for); (a') Send parity: the future of each task-spawning macro over Send + 'static branches passes a `T: Send` bound and is driven on another OS thread, like the plain macro's; (a) the SAME generated program (depth profiles plain / capture-rich / handler+let with every failure subset; every typed chain of length <= 2 as first branch) instantiated under both names of each of the 12 pairs {plain, spawn variant, alias}: results and per-branch traces compared directly, real macro against real macro; (b) real expansion text (rustc -Zunpretty=expanded) of alias!{P} == long!{P} for P over the 40-input feature corpus x 4 alias pairs, and join_impl called as a library (E1) == the real proc-macro; (c) under the thread scheduler / deterministic executor the outcome set explored for an alias equals the one of its long name and every outcome equals the plain macro's reference")
     sample_family(rep, progs, fr)
 
 
